@@ -20,18 +20,20 @@ import (
 	"strconv"
 	"strings"
 
-	listener "github.com/envoyproxy/go-control-plane/envoy/config/listener/v3"
-	hcm "github.com/envoyproxy/go-control-plane/envoy/extensions/filters/network/http_connection_manager/v3"
+	"time"
 
 	meshconfig "istio.io/api/mesh/v1alpha1"
-	"istio.io/istio/pilot/pkg/features"
-	"istio.io/istio/pkg/config/host"
 	authpb "istio.io/api/security/v1beta1"
 	typepb "istio.io/api/type/v1beta1"
+	"istio.io/istio/pilot/pkg/config/memory"
+	"istio.io/istio/pilot/pkg/features"
 	"istio.io/istio/pilot/pkg/model"
 	"istio.io/istio/pilot/pkg/networking"
 	authzplugin "istio.io/istio/pilot/pkg/networking/plugin/authz"
 	"istio.io/istio/pkg/config"
+	"istio.io/istio/pkg/config/host"
+	"istio.io/istio/pkg/config/mesh/meshwatcher"
+	"istio.io/istio/pkg/config/schema/collections"
 	"istio.io/istio/pkg/config/schema/gvk"
 	"istio.io/istio/pkg/config/validation"
 	_ "verifharness/internal/quiet"
@@ -69,14 +71,17 @@ type sut struct {
 	// CUSTOM action: extension providers defined in the mesh config, multi-provider feature flag
 	providers []string
 	multi     bool
+	proxyType model.NodeType
+	// ONE pair of plugin builders (CUSTOM, Local) per case and useFilterState value, reused by every build op
+	// of the case exactly as the listener builder reuses them (lazy cache of BuildTCP / BuildHTTP)
+	builders map[bool][2]*authzplugin.Builder
 	// last build
-	httpFilters []*hcm.HttpFilter
-	tcpFilters  []*listener.Filter
-	built       []*builtFilter
+	built []*builtFilter
 }
 
 func newSUT() *sut {
-	return &sut{bundle: []string{"cluster.local"}, rootNS: "istio-system", wlNS: "foo", wlLabels: map[string]string{}}
+	return &sut{bundle: []string{"cluster.local"}, rootNS: "istio-system", wlNS: "foo", wlLabels: map[string]string{},
+		proxyType: model.SidecarProxy, builders: map[bool][2]*authzplugin.Builder{}}
 }
 
 func kv(t string) (string, string) {
@@ -87,10 +92,19 @@ func kv(t string) (string, string) {
 	return t[:i], t[i+1:]
 }
 
-func (s *sut) lastPolicy() *model.AuthorizationPolicy { return &s.policies[len(s.policies)-1] }
+func (s *sut) lastPolicy() *model.AuthorizationPolicy {
+	if len(s.policies) == 0 {
+		return nil
+	}
+	return &s.policies[len(s.policies)-1]
+}
+
 func (s *sut) lastRule() *authpb.Rule {
-	p := s.lastPolicy().Spec
-	return p.Rules[len(p.Rules)-1]
+	p := s.lastPolicy()
+	if p == nil || len(p.Spec.Rules) == 0 {
+		return nil
+	}
+	return p.Spec.Rules[len(p.Spec.Rules)-1]
 }
 
 func actionOf(a string) authpb.AuthorizationPolicy_Action {
@@ -173,16 +187,12 @@ func (s *sut) valid() bool {
 	return true
 }
 
-// build goes through the REAL plugin entry point pilot/pkg/networking/plugin/authz.NewBuilder (trust domain
-// bundle from the mesh config, PolicyMatcherForProxy + ListAuthorizationPolicies, builder.New) for the
-// CUSTOM builder first and the ALLOW/DENY/AUDIT builder second, as the listener builder orders the filters.
-// kind: http | tcp | tcphttp (BuildTCPRulesAsHTTPFilter: TCP rules carried by HTTP filters).
-func (s *sut) build(kind string, useAuth bool) {
-	s.forTCP = kind != "http"
-	ap := &model.AuthorizationPolicies{NamespaceToPolicies: map[string][]model.AuthorizationPolicy{}, RootNamespace: s.rootNS}
-	for _, p := range s.policies {
-		ap.NamespaceToPolicies[p.Namespace] = append(ap.NamespaceToPolicies[p.Namespace], p)
-	}
+// newBuilders loads the policies of the case into a memory config store, derives model.AuthorizationPolicies
+// with the REAL model.GetAuthorizationPolicies (root namespace from the mesh watcher, creation-time order,
+// annotations) and creates the CUSTOM and Local builders through the REAL plugin entry point
+// pilot/pkg/networking/plugin/authz.NewBuilder (trust domain bundle from the mesh config,
+// PolicyMatcherForProxy + ListAuthorizationPolicies + ShouldAttachPolicy, builder.New).
+func (s *sut) newBuilders(useAuth bool) [2]*authzplugin.Builder {
 	mesh := &meshconfig.MeshConfig{TrustDomain: s.bundle[0], TrustDomainAliases: s.bundle[1:], RootNamespace: s.rootNS}
 	for _, name := range s.providers {
 		ep := &meshconfig.MeshConfig_ExtensionProvider{Name: strings.TrimPrefix(name, "http:")}
@@ -201,15 +211,42 @@ func (s *sut) build(kind string, useAuth bool) {
 		}
 		mesh.ExtensionProviders = append(mesh.ExtensionProviders, ep)
 	}
-	push := &model.PushContext{AuthzPolicies: ap, Mesh: mesh}
+	store := memory.NewController(collections.Pilot, true) // validation is the harness's own, separate step (valid())
+	t0 := time.Unix(1700000000, 0)
+	for i, p := range s.policies {
+		if _, err := store.Create(config.Config{
+			Meta: config.Meta{GroupVersionKind: gvk.AuthorizationPolicy, Name: p.Name, Namespace: p.Namespace,
+				Annotations: p.Annotations, CreationTimestamp: t0.Add(time.Duration(i) * time.Second)},
+			Spec: p.Spec,
+		}); err != nil {
+			panic("store.Create: " + err.Error())
+		}
+	}
+	env := &model.Environment{ConfigStore: store, Watcher: meshwatcher.NewTestWatcher(mesh)}
+	push := &model.PushContext{AuthzPolicies: model.GetAuthorizationPolicies(env), Mesh: mesh}
 	push.ServiceIndex.HostnameAndNamespace = map[host.Name]map[string]*model.Service{
 		"my-custom-ext-authz.foo.svc.cluster.local": {"foo": &model.Service{Hostname: "my-custom-ext-authz.foo.svc.cluster.local"}},
 	}
-	proxy := &model.Proxy{Type: model.SidecarProxy, ConfigNamespace: s.wlNS, Labels: s.wlLabels, Metadata: &model.NodeMetadata{}}
-	s.httpFilters, s.tcpFilters, s.built = nil, nil, nil
+	proxy := &model.Proxy{Type: s.proxyType, ConfigNamespace: s.wlNS, Labels: s.wlLabels, Metadata: &model.NodeMetadata{}}
 	features.EnableMultipleCustomAuthzProviders = s.multi
-	for _, at := range []authzplugin.ActionType{authzplugin.Custom, authzplugin.Local} {
-		b := authzplugin.NewBuilder(at, push, proxy, !useAuth)
+	return [2]*authzplugin.Builder{
+		authzplugin.NewBuilder(authzplugin.Custom, push, proxy, !useAuth),
+		authzplugin.NewBuilder(authzplugin.Local, push, proxy, !useAuth),
+	}
+}
+
+// build: kind = http (listener class = third token: in | gw | out), tcp, tcphttp (BuildTCPRulesAsHTTPFilter).
+// The CUSTOM builder's filters come first, as the listener builder orders them.
+func (s *sut) build(kind string, useAuth bool, class string) {
+	s.forTCP = kind != "http"
+	bs, ok := s.builders[useAuth]
+	if !ok {
+		bs = s.newBuilders(useAuth)
+		s.builders[useAuth] = bs
+	}
+	features.EnableMultipleCustomAuthzProviders = s.multi
+	s.built = nil
+	for _, b := range bs {
 		switch kind {
 		case "tcp":
 			for _, f := range b.BuildTCP() {
@@ -220,7 +257,14 @@ func (s *sut) build(kind string, useAuth bool) {
 				s.built = append(s.built, fromHTTP(f))
 			}
 		default:
-			for _, f := range b.BuildHTTP(networking.ListenerClassSidecarInbound) {
+			lc := networking.ListenerClassSidecarInbound
+			switch class {
+			case "gw":
+				lc = networking.ListenerClassGateway
+			case "out":
+				lc = networking.ListenerClassSidecarOutbound
+			}
+			for _, f := range b.BuildHTTP(lc) {
 				s.built = append(s.built, fromHTTP(f))
 			}
 		}
@@ -248,6 +292,9 @@ func (s *sut) apply(f []string) (out string) {
 			k, v := kv(e)
 			s.wlLabels[k] = v
 		}
+		if len(f) > 4 && f[4] == "router" {
+			s.proxyType = model.Router
+		}
 		return "ok"
 	case "custom":
 		s.providers, s.multi = wire.DecList(f[1]), f[2] == "1"
@@ -271,9 +318,22 @@ func (s *sut) apply(f []string) (out string) {
 				}
 			}
 		}
+		// targetRefs: entries group|kind|name|namespace
+		if len(f) > 7 {
+			for _, e := range wire.DecList(f[7]) {
+				q := strings.Split(e, "|")
+				for len(q) < 4 {
+					q = append(q, "")
+				}
+				p.Spec.TargetRefs = append(p.Spec.TargetRefs, &typepb.PolicyTargetReference{Group: q[0], Kind: q[1], Name: q[2], Namespace: q[3]})
+			}
+		}
 		s.policies = append(s.policies, p)
 		return "ok"
 	case "rule":
+		if s.lastPolicy() == nil {
+			return "bad-op"
+		}
 		sp := s.lastPolicy().Spec
 		sp.Rules = append(sp.Rules, &authpb.Rule{})
 		return "ok"
@@ -284,6 +344,9 @@ func (s *sut) apply(f []string) (out string) {
 			setSrc(src, k, wire.DecList(v))
 		}
 		r := s.lastRule()
+		if r == nil {
+			return "bad-op"
+		}
 		r.From = append(r.From, &authpb.Rule_From{Source: src})
 		return "ok"
 	case "to":
@@ -293,14 +356,24 @@ func (s *sut) apply(f []string) (out string) {
 			setOp(op, k, wire.DecList(v))
 		}
 		r := s.lastRule()
+		if r == nil {
+			return "bad-op"
+		}
 		r.To = append(r.To, &authpb.Rule_To{Operation: op})
 		return "ok"
 	case "when":
 		r := s.lastRule()
+		if r == nil {
+			return "bad-op"
+		}
 		r.When = append(r.When, &authpb.Condition{Key: wire.Dec(f[1]), Values: wire.DecList(f[2]), NotValues: wire.DecList(f[3])})
 		return "ok"
 	case "build":
-		s.build(f[1], f[2] == "1")
+		class := "in"
+		if len(f) > 3 {
+			class = f[3]
+		}
+		s.build(f[1], f[2] == "1", class)
 		return canonFilters(s.built)
 	case "req":
 		r := parseReq(f[1:])
